@@ -1269,6 +1269,11 @@ func (v *Vrf) ToGlobalPath(path *Path) error {
 	default:
 		return fmt.Errorf("unsupported route family for vrf: %s", rf)
 	}
+	// the destination / sent-path keys are derived from the cached NLRI text: refresh it now that
+	// the NLRI carries the VRF's RD (otherwise the same prefix originated in two VRFs shares one key)
+	if n := path.OriginInfo().nlri; n != nil {
+		path.OriginInfo().nlriString = n.String()
+	}
 	path.SetExtCommunities(v.ExportRt, false)
 	// FIXME: we should not need to keep mp reach in Path.
 	path.delPathAttr(bgp.BGP_ATTR_TYPE_NEXT_HOP)
